@@ -353,6 +353,10 @@ class Ctx:
             # the same case failed and then passed when Hypothesis repeated it: its outcome depends on what ran before
             # it in this process (state shared between instances / calls) - that is a finding about the code under
             # test, not an inconclusive run
+            if not last.get("viol"):
+                # what failed and then passed was not an oracle clause (a harness bound such as a real-time cap on
+                # an overloaded machine): inconclusive, never a verdict
+                raise HarnessError("flaky: %r" % (e,))
             v = Violation("%s.result_depends_on_earlier_cases" % self.prop,
                           {"hypothesis": repr(e)[:500], "first_failure": last.get("viol")})
             self._record_violation(name, last.get("case"), v)
